@@ -4,8 +4,8 @@ import SaModel.Spec.WF
 /-
 C04: reading the logical value of a typed value back at its own type.
 
-  cast_lv : frag t → wt t v → mappingDT o t = (dt, nb, md) → Spec.wf dt nl a →
-            Read.cast (toTarget t) a (lv t v) = must (dvalOf t (norm t v))
+  cast_lvO : fragE t → wt t v → inScopeU o t v → strOK o t v → mappingDT o t = (dt, nb, md) → Spec.wf dt nl a →
+             Read.cast (toTarget t) a (lvO o t v) = must (dvalOf t (norm t v))            (Lemmas/C04CastLv.lean)
 
 `Read.cast` is the value-level specification of typed reads that `Props.C02.read_typed_decode` proves the reader model
 against; `a` is any well-formed array of the traced field (only its type skeleton is used).
@@ -151,11 +151,11 @@ theorem wfFields_names (o : TraceOpts) : ∀ (fs : TFields) (cols : ArrFields) (
       exact this.1.1
     simp [Read.ArrFields.names, TFields.names, hn, wfFields_names o r rest len h.2]
 
-/-- every field of the suffix `(fs2, vs2)` is found by name among the columns, with its logical value, in a
-well-formed column of its traced type -/
+/-- every field of the suffix `(fs2, vs2)` is found by name among the columns, with its (option-dependent) logical value
+`lvO o`, in a well-formed column of its traced type -/
 def FoundA (o : TraceOpts) (cols : ArrFields) (lfs : LFields) : TFields → Vals → Prop
   | .cons n _ t rest, .cons v vrest =>
-    (∃ a dt nb md nl, Read.fieldNamed cols lfs n = some (a, lv t v) ∧ mappingDT o t = (dt, nb, md) ∧ Spec.wf dt nl a = true) ∧
+    (∃ a dt nb md nl, Read.fieldNamed cols lfs n = some (a, lvO o t v) ∧ mappingDT o t = (dt, nb, md) ∧ Spec.wf dt nl a = true) ∧
       FoundA o cols lfs rest vrest
   | _, _ => True
 
@@ -173,7 +173,7 @@ theorem foundA_mono (o : TraceOpts) (c c' : ArrFields) (l l' : LFields) : ∀ (f
 
 theorem foundA_of (o : TraceOpts) (len : Nat) : ∀ (fs : TFields) (vs : Vals) (cols : ArrFields),
     Spec.wfFields (mappingFields o fs) cols len = true → wtFields fs vs = true → hasDup fs.names = false →
-    FoundA o cols (lvFields fs vs) fs vs
+    FoundA o cols (lvOFields o fs vs) fs vs
   | .nil, _, _, _, _, _ => by simp [FoundA]
   | .cons _ _ _ _, .nil, _, _, hw, _ => by simp [wtFields] at hw
   | .cons n s t r, .cons v vrest, .nil, h, _, _ => by
@@ -189,8 +189,8 @@ theorem foundA_of (o : TraceOpts) (len : Nat) : ∀ (fs : TFields) (vs : Vals) (
       simp only [Spec.metaMatches, Field.name, Bool.and_eq_true, beq_iff_eq] at this
       exact this.1.1
     have ih := foundA_of o len r vrest rest h.2 hw.2 hd.2
-    refine ⟨⟨a, dt, nb, md, nb, ?_, hm, ?_⟩, foundA_mono o rest _ (lvFields r vrest) _ r vrest ?_ ih⟩
-    · simp [lvFields, Read.fieldNamed, hn]
+    refine ⟨⟨a, dt, nb, md, nb, ?_, hm, ?_⟩, foundA_mono o rest _ (lvOFields o r vrest) _ r vrest ?_ ih⟩
+    · simp [lvOFields, Read.fieldNamed, hn]
     · simpa [Field.dataType, Field.nullable] using h.1.2
     · intro m hmem
       have hne : (fm.name == m) = false := by
@@ -200,6 +200,6 @@ theorem foundA_of (o : TraceOpts) (len : Nat) : ∀ (fs : TFields) (vs : Vals) (
           have : fm.name = m := by simpa using hb
           rw [hn] at this; subst this
           rw [hd.1] at hmem; cases hmem
-      simp [lvFields, Read.fieldNamed, hne]
+      simp [lvOFields, Read.fieldNamed, hne]
 
 end SaModel.Roundtrip
